@@ -47,7 +47,7 @@ CHECKS = {
                 text="TokenizerWorker + 1-3 recording observers (also a real PrintWorker) on 2-4 (quick) / up to 7 (thorough) windows with symbolic activity; <=2 (3) pre-emptive switches, <=1 (2) spurious time-outs per worker; also partial last windows, a main thread that returns without joining, workers started by hand, invalid parameters, and concrete entirely active streams of 70-260 (600) windows: observers' logs == detections == split(); all threads end; no deadlock.",
                 ref="§5 C12-C14", note="Trusted: the cooperative scheduler as a model of CPython threads switching at queue operations and joins; exhaustive forking (not a closed-form argument) along the schedule dimension."),
     "C13": dict(level="model_checking", tech="symbolic schedules as C12 with the real StreamSaverWorker (symbolic cache threshold), AudioEventsJoinerWorker, RegionSaverWorker over wave stubs",
-                text="Saved stream == blocks read (header, closed file), joined file == split_and_join_with_silence(), one correctly named file per detection, under every schedule within the bounds; a concrete 70 000-frame stream saved, joined and exported as raw / wav (with stale temp files present).",
+                text="Saved stream == blocks read (header, closed file), joined file == split_and_join_with_silence(), one correctly named file per detection, under every schedule within the bounds; a concrete 70 000-frame stream saved, joined and exported as raw / wav (with stale temp files present); the saver alone on fully symbolic audio content.",
                 ref="§5 C12-C14", note="Trusted: as C12, plus the wave/open write stubs (replays use real wav files)."),
     "C14": dict(level="model_checking", tech="symbolic schedules as C12 with the main thread's stop_all() schedulable at every point",
                 text="After a stop at any point: all threads finished, observers' log == detections of split() on exactly the blocks read, saved wav closed and holding those blocks.",
